@@ -5,7 +5,7 @@ export GOFLAGS=-mod=mod GOPROXY=off GOSUMDB=off GOTOOLCHAIN=local
 WT=/tmp/mx_repo
 git -C /repo worktree remove --force $WT 2>/dev/null; git -C /repo worktree prune
 git -C /repo worktree add -q --detach $WT HEAD || exit 2
-seeds=("$@"); [ ${#seeds[@]} -eq 0 ] && seeds=($(ls /verif/seeded | grep -E '^C[0-9]+-[AB]$'))
+seeds=("$@"); [ ${#seeds[@]} -eq 0 ] && seeds=($(ls /verif/seeded | grep -E '^C[0-9]+-[A-Z]$'))
 mkdir -p /verif/out/matrix
 for s in "${seeds[@]}"; do
   p=${s%%-*}
